@@ -1,5 +1,5 @@
 (* C04 — Every symlink left by Unpack resolves inside the destination. *)
-From Slug Require Import Base.Str Base.PathAlg FS.FS FS.FSProofs Slug.Unpack Slug.UnpackSafe Slug.UnpackSpec.
+From Slug Require Import Base.Str Base.PathAlg FS.FS FS.FSProofs FS.Confined Slug.Unpack Slug.UnpackSafe Slug.UnpackSpec Slug.UnpackLinks.
 
 (* What holds: a link is only created when its target, joined to the link's
    directory and cleaned, is lexically inside dst (absolute and lexically
@@ -39,6 +39,58 @@ Proof.
   - vm_compute in Hrel. discriminate.
 Qed.
 
+(* What does hold physically, and exactly where the boundary is: the escape
+   above needs a link target with ".." AFTER a name ("a/.." goes up from
+   wherever the link a leads, not from where it is written).  For every archive
+   whose link targets have no ".." after a name - relative targets of the form
+   ../../x/y, plain names, absolute targets, with "." and empty segments
+   anywhere - the full statement is a theorem: whatever the entries, their
+   order and repetitions, under either privilege, whether Unpack succeeds or
+   stops with an error, following any path from inside dst - in particular any
+   link left there, through any number of other links (up to the kernel's
+   limit), final link followed or not - ends inside dst.  The destination may
+   hold links of the same kind beforehand ([confined]; true of an empty or
+   link-free destination). *)
+Theorem C04_links_resolve_inside :
+  forall is_root fs dst es fs' r,
+    dst_ok dst -> is_dir fs = true -> rdir fs (comps_of dst) ->
+    confined fs (comps_of dst) ->
+    (forall e, In e es -> is_sym e = true -> target_updown (e_link e)) ->
+    unpack is_root [] fs dst es = (fs', r) ->
+    forall fl l ph, no_dd l = true ->
+      resolve fs' fl (comps_of dst ++ l) = Ok ph -> exists rel, ph = comps_of dst ++ rel.
+Proof. exact unpack_links_resolve_inside. Qed.
+
+(* the underlying fact about the kernel's resolution, for any file system *)
+Theorem C04_confined_resolution :
+  forall fs D, confined fs D -> rdir fs D -> forallb plainb D = true ->
+  forall fl l ph, no_dd l = true -> resolve fs fl (D ++ l) = Ok ph -> exists rel, ph = D ++ rel.
+Proof. intros fs D Hc Hr Hp fl l ph. exact (resolve_confined fs D Hc Hr fl l ph Hp). Qed.
+
+(* the hypotheses are satisfiable by an archive with chained, climbing and
+   absolute links, all of which then resolve inside; and the witness of the
+   refutation is exactly outside them *)
+Example C04_links_instance :
+  let es := [ mkEntry (s2l "d/") ty_dir [] 493 0 [];
+              mkEntry (s2l "d/up") ty_sym (s2l "../f") 511 0 [];
+              mkEntry (s2l "f") ty_reg [] 420 0 (s2l "x");
+              mkEntry (s2l "chain") ty_sym (s2l "d/up") 511 0 [];
+              mkEntry (s2l "abs") ty_sym (s2l "/w/dst/chain") 511 0 [];
+              mkEntry (s2l "self") ty_sym (s2l ".") 511 0 [] ] in
+  forallb (fun e => negb (is_sym e) || updown (split_on slash (e_link e))) es = true /\
+  (let '(fs', r) := unpack true [] demo_fs (s2l "/w/dst") es in
+   r = ROk /\
+   resolve fs' true [s2l "w"; s2l "dst"; s2l "abs"] = Ok [s2l "w"; s2l "dst"; s2l "f"] /\
+   resolve fs' true [s2l "w"; s2l "dst"; s2l "self"; s2l "self"; s2l "d"; s2l "up"] = Ok [s2l "w"; s2l "dst"; s2l "f"]) /\
+  forallb (fun e => negb (is_sym e) || updown (split_on slash (e_link e))) demo_entries = false.
+Proof. vm_compute. repeat split. Qed.
+
+Lemma C04_empty_destination_is_confined :
+  forall fs D pm mt, get fs D = Some (Dir pm mt []) -> confined fs D.
+Proof.
+  intros fs D pm mt Hg q t Hq. rewrite get_app, Hg in Hq. destruct q; cbn in Hq; discriminate.
+Qed.
+
 (* Unpack does keep the links it creates from touching anything outside (C01),
    whatever they resolve to: creation of a link never follows a link. *)
 Theorem C04_links_never_written_through :
@@ -50,3 +102,6 @@ Proof. exact unpack_outside_unchanged. Qed.
 Print Assumptions C04_lexical.
 Print Assumptions C04_refuted.
 Print Assumptions C04_links_never_written_through.
+Print Assumptions C04_links_resolve_inside.
+Print Assumptions C04_confined_resolution.
+Print Assumptions C04_empty_destination_is_confined.
